@@ -1242,7 +1242,13 @@ fn run(a: &Args) {
                             rep.t3("C11", &format!("new_service({cfg}) of {f} resolved to {res}, the reference is {:?}", want.res.as_ref().map(|s| s.to_string())));
                         }
                         let got_news: Vec<(u32, u32)> = log.iter().filter_map(|e| if let Ev::New(i, c) = e { Some((*i, *c)) } else { None }).collect();
-                        if got_news != news {
+                        // which factories are asked, and with what — not in which order
+                        let sorted = |v: &Vec<(u32, u32)>| {
+                            let mut v = v.clone();
+                            v.sort_unstable();
+                            v
+                        };
+                        if sorted(&got_news) != sorted(&news) {
                             rep.t3("C11", &format!("new_service({cfg}) of {f}: inner factories were asked {got_news:?}, expected each once with its config: {news:?}"));
                         }
                         if agrees && polls.len() != want.pend as usize + 1 {
@@ -1608,9 +1614,14 @@ fn gen(a: &Args) {
             let (mut nx, mut nf) = (0, 60);
             rescript_fac(&mut f, &mut rng, if thorough { 2 } else { 1 }, &mut nx, &mut nf);
             n += 1;
+            let cfg = rng.below(10) as u32;
             writeln!(w, "case fshape-{n}").unwrap();
-            writeln!(w, "fac {f} {}", rng.below(10)).unwrap();
-            emit_ops(&mut w, &mut rng, 4, ready_bias);
+            writeln!(w, "fac {f} {cfg}").unwrap();
+            if ref_fac(&f, cfg, &mut vec![]).res.is_ok() {
+                emit_ops(&mut w, &mut rng, 4, ready_bias);
+            } else {
+                writeln!(w, "ready").unwrap(); // no service: rejected on both sides
+            }
         }
     }
 
@@ -1621,9 +1632,12 @@ fn gen(a: &Args) {
         if c % 3 == 2 {
             let d = g.rng.range(1, 3);
             let f = g.fac(d);
-            let cfg = g.rng.below(10);
+            let cfg = g.rng.below(10) as u32;
             writeln!(w, "case rfac-{c}").unwrap();
             writeln!(w, "fac {f} {cfg}").unwrap();
+            if ref_fac(&f, cfg, &mut vec![]).res.is_err() {
+                continue;
+            }
         } else {
             let d = g.rng.range(1, 3);
             let s = g.svc(d);
